@@ -333,6 +333,25 @@ class Fn:
             return f"(inject_Z {txt})"
         raise Unsupported(f"cannot use {t} as {want}")
 
+    def expr_as(self, e, env, hoist, want):
+        """translate e where a value of type `want` is expected (tuples elementwise; x for Optional[x]; None; numeric literals)"""
+        if isinstance(e, ast.Tuple) and isinstance(want, tuple) and want[0] == "T" and len(want) - 1 == len(e.elts):
+            parts = [self.expr_as(x, env, hoist, w) for x, w in zip(e.elts, want[1:])]
+            return "(" + ", ".join(parts) + ")"
+        t, ty = self.expr(e, env, hoist)
+        if ty == want:
+            return t
+        if ty == LIT:
+            return self.coerce(t, LIT, want)
+        if isinstance(want, tuple) and want[0] == "O":
+            if ty == ("O", None):
+                return "None"
+            if ty == want[1]:
+                return f"(Some {t})"
+        if ty in (N, Z) and want == Q:
+            return self.coerce(t, ty, Q)
+        raise Unsupported(f"a {ty} where a {want} is expected")
+
     def unify_num(self, a, ta, b, tb):
         """bring two numeric operands to a common type"""
         if ta == LIT and tb == LIT:
@@ -709,6 +728,11 @@ class Fn:
             a, b, ty = self.unify_num(a, ta, b, tb)
             a, b = self.coerce(a, ty, Q), self.coerce(b, ty, Q)
             return f"(py{fname} {a} {b})", Q
+        if fname == "float" and len(e.args) == 1 and not e.keywords:
+            a, ta = self.expr(e.args[0], env, hoist, pure)
+            if ta == LIT:
+                return qlit(a), Q
+            return self.coerce(a, ta, Q), Q
         if fname == "abs" and len(e.args) == 1:
             a, ta = self.expr(e.args[0], env, hoist, pure)
             return f"(qabs {self.coerce(a, ta, Q)})", Q
@@ -967,10 +991,13 @@ class Fn:
                 and len(s.value.args) == 1 and not s.value.keywords):
             x = s.value.func.value.id
             hoist = []
-            v, tv = self.expr(s.value.args[0], env, hoist)
+            et = env[x][1][1]
+            if s.value.func.attr == "append" and et is not None:
+                v, tv = self.expr_as(s.value.args[0], env, hoist, et), et
+            else:
+                v, tv = self.expr(s.value.args[0], env, hoist)
             if tv == LIT:
                 v, tv = qlit(v), Q
-            et = env[x][1][1]
             if s.value.func.attr == "append":
                 if et is not None and tv != et:
                     raise Unsupported("append of another element type")
@@ -1062,6 +1089,8 @@ class Fn:
                 return cont(env2)
         if isinstance(target, ast.Name):
             t, ty = self.expr(value, env, hoist)
+            if ty == ("L", None) and target.id == "yielded_" and self.iface.get("yields") and "ret" in self.iface:
+                ty = parse_type(self.iface["ret"])
             if ty == LIT:
                 t, ty = qlit(t), Q
             env2[target.id] = (target.id, ty)
@@ -1106,6 +1135,11 @@ class Fn:
         return None
 
     def if_(self, s: ast.If, rest, env, k, mode):
+        if isinstance(s.test, ast.BoolOp) and isinstance(s.test.op, ast.And) and not s.orelse and all(self.narrow(v) and self.narrow(v)[1] for v in s.test.values):
+            inner = s.body
+            for v in reversed(s.test.values):  # nested ifs: equivalent when there is no else branch
+                inner = [ast.If(test=v, body=inner, orelse=[])]
+            return self.if_(inner[0], rest, env, k, mode)
         nar = self.narrow(s.test)
         # idiom: if x is None: x = e
         if nar and not nar[1] and not s.orelse and len(s.body) == 1 and isinstance(s.body[0], ast.Assign) and len(s.body[0].targets) == 1 and isinstance(s.body[0].targets[0], ast.Name) and s.body[0].targets[0].id == nar[0]:
@@ -1422,6 +1456,20 @@ class Fn:
             raise Unsupported("function can fall off its end")
 
         stmts = list(node.body)
+        if iface.get("skip_until_assigned"):
+            # only the tail of the function is read: everything up to and including the assignment of this name is the
+            # unit's precondition (its result and the names listed in extra_params are parameters)
+            idx = None
+            for i_, st in enumerate(stmts):
+                if isinstance(st, ast.Assign) and len(st.targets) == 1 and isinstance(st.targets[0], ast.Name) and st.targets[0].id == iface["skip_until_assigned"]:
+                    idx = i_
+            if idx is None:
+                raise Unsupported(f"no assignment of {iface['skip_until_assigned']}")
+            stmts = stmts[idx + 1:]
+        for n_, t_ in iface.get("extra_params", {}).items():
+            ty_ = t_ if not isinstance(t_, str) else parse_type(t_) if t_ not in ("M",) else ("M",)
+            env[n_] = (n_, ty_)
+            self.raw_params.append((n_, "matrix" if ty_ == ("M",) else coq_type(ty_)))
         if iface.get("yields"):  # a generator that is not the count() idiom: collect what it yields, in order
             class _Y(ast.NodeTransformer):
                 def visit_Expr(self, n):
@@ -1482,6 +1530,16 @@ def arr_handler(fn, e, env, hoist, pure):
                 hi, thi = fn.expr(sl.args[1], env, hoist, pure)
                 if ty == ARR and tlo == Q and thi == Q:
                     return f"(sel_slice {t} {lo} {hi})", ARR
+    return None
+
+
+def mat_handler(fn, e, env, hoist, pure):
+    """cost_matrix[i, j] on the affinity matrix (a numpy array indexed by a pair of ints)"""
+    if isinstance(e, ast.Subscript) and isinstance(e.value, ast.Name) and e.value.id in env and env[e.value.id][1] == ("M",) and isinstance(e.slice, ast.Tuple) and len(e.slice.elts) == 2:
+        i, ti = fn.expr(e.slice.elts[0], env, hoist, pure)
+        j, tj = fn.expr(e.slice.elts[1], env, hoist, pure)
+        if ti == N and tj == N:
+            return f"(mget {env[e.value.id][0]} {i} {j})", Q
     return None
 
 
@@ -1578,7 +1636,7 @@ def generate(src_root: Path) -> tuple[str, dict]:
     out = [
         "(* Gen/Source.v — GENERATED by harness/pygen.py from /repo/src on every run; do not edit. *)",
         "From SE Require Export Gen.Prelude.",
-        "From SE Require Import Geom.Ops Misc.SegmentClip Eval.Affinity Geom.Validate.",
+        "From SE Require Import Geom.Ops Misc.SegmentClip Eval.Affinity Geom.Validate Eval.Match.",
         "Open Scope Q_scope.",
         "",
     ]
@@ -1765,6 +1823,12 @@ def generate(src_root: Path) -> tuple[str, dict]:
          {"attrs": {"self.tasks": "L(R{clip.uuid:Z})", "self.clip_annotations": "L(R{clip.uuid:Z;uuid:Z})"}, "consts": {"self": ("tt", "U")}, "ret": "U"})
     unit("Clip__validate_times", "data/clips.py", "Clip._validate_times",
          {"attrs": {"values.start_time": "Q", "values.end_time": "Q"}, "consts": {"values": ("tt", "U")}, "ret": "U"})
+
+    # ---- C07: the loop of match_geometries that turns the selected pairs into the reported triples (what precedes it — the
+    # affinity matrix, scipy's assignment and the leftover rows / columns — enters as the parameters cost_matrix and matches)
+    unit("match_geometries_tail", "evaluation/match.py", "match_geometries",
+         {"drop_params": ["source", "target", "time_buffer", "freq_buffer"], "skip_until_assigned": "matches",
+          "extra_params": {"cost_matrix": "M", "matches": "L(T(O(N),O(N)))"}, "yields": True, "ret": "L(T(O(N),O(N),Q))", "custom": [mat_handler]})
 
     # ---- C08 / C09: which clips are evaluated (a clip prediction / annotation is represented by (clip uuid, own id))
     cobj = "R{clip.uuid:Z;uuid:Z}"
